@@ -128,7 +128,8 @@ def cmd_table():
         if os.path.exists(dp):
             m.update(json.load(open(dp)).get(sid, {}))
         ch = '; '.join(f"{k}: {v['verdict']}" for k, v in sorted(m.get('checks', {}).items()))
-        rows.append(f"| {sid} | {m['property']} | {m.get('summary','')} | {m.get('needs','')} | {ch} |")
+        esc = lambda t: str(t).replace('|', '\\|')
+        rows.append(f"| {sid} | {m['property']} | {esc(m.get('summary',''))} | {esc(m.get('needs',''))} | {ch} |")
     print('| seed | property | change | needs | checks |\n|---|---|---|---|---|')
     print('\n'.join(rows))
 
